@@ -12,6 +12,7 @@ R9.8  compare-only generation compares every directory it would write: the clien
 R9.6  compare-only generation sees the shared core's exception registry (seeded read-only from the real core)
 R9.7  the two generation branches are siblings: same emitter sequence, each emit once; emit-time renaming of
       IR names is idempotent (records and re-tests the final name)
+R9.10 compare-only generation creates the ancestor __init__.py files that direct generation creates (same package structure for the post-processor)
 """
 from __future__ import annotations
 
@@ -321,6 +322,30 @@ def run(repo: Repo, rep: Report, tier: str) -> None:
 
     # R9.8 the compare covers the core wherever it lives (shared with C10/R10.6)
     c10.diff_coverage(repo, rep, "R9.8", gen, diff_body)
+    # ---------------------------------------------------------------- R9.10 both branches build the same package structure
+    # The post-processor (import sorting) looks at the tree a file sits in: whether `apis` is a local package decides where
+    # `from apis.client...` is grouped.  If direct generation creates the ancestor __init__.py files, compare-only generation must create
+    # them below its temporary root as well, otherwise an unchanged nested package compares unequal.
+    def init_loops(body) -> List[ast.While]:
+        out = []
+        for st in body:
+            for w in ast.walk(st):
+                if isinstance(w, ast.While) and any(isinstance(x, ast.Constant) and x.value == "__init__.py" for x in ast.walk(w)) and any(
+                        isinstance(c, ast.Call) and isinstance(c.func, ast.Attribute) and c.func.attr in ("write_text", "touch", "write_file") for c in ast.walk(w)):
+                    out.append(w)
+        return out
+
+    il_direct, il_diff = init_loops(direct_body), init_loops(diff_body)
+    sub910 = f"{gen.module.relpath}:generate ancestor __init__.py files in both branches"
+    if not il_direct:
+        rep.ok("R9.10", sub910, "direct generation creates no ancestor __init__.py files: nothing to mirror", gen.loc(sw))
+    elif il_diff:
+        rep.ok("R9.10", sub910, f"direct generation has {len(il_direct)} ancestor-__init__ loop(s), compare-only generation {len(il_diff)} below the temporary root", gen.loc(il_diff[0]))
+    else:
+        rep.violation("R9.10", sub910, f"{gen.fq}|init-structure-not-mirrored",
+                      "direct generation creates __init__.py in every ancestor package of the output, compare-only generation does not: in the temporary tree `apis` is not a "
+                      "package, the post-processor groups `from apis.client...` differently, and an immediate re-run over an unchanged nested package fails with "
+                      "'Differences found'", gen.loc(sw))
 
     # R9.9 output is independent of prior runs: the shared-core registry entry of a client is overwritten with its current codes and the
     # aliases are regenerated from the union (rules of C11/R11.1)
